@@ -55,6 +55,16 @@ func c12RestRun(cfg, ops string) string {
 		if op == "" || op == "reopen" || op == "flush" {
 			continue
 		}
+		if strings.HasPrefix(op, "cfg ") {
+			var names []string
+			for _, n := range strings.Split(strings.TrimPrefix(op, "cfg "), ",") {
+				if a, ok := c12Atoms[n]; ok {
+					names = append(names, a)
+				}
+			}
+			_ = p.SetStoreConfig("s", spi.StoreConfiguration{TagNames: names})
+			continue
+		}
 		c11Apply(st, c12Translate(op))
 	}
 	reqs := vault.receivedRequests()
